@@ -61,6 +61,16 @@ def _mat(arr):
     return [[_cell(x) for x in row] for row in arr.tolist()]
 
 
+def r32(x):
+    """exact integers -> the float32 nearest to them (identity below 2^24), recursively"""
+    if isinstance(x, list):
+        return [r32(y) for y in x]
+    if isinstance(x, int) and not isinstance(x, bool) and abs(x) >= (1 << 24):
+        import numpy as np
+        return int(np.float32(x))
+    return x
+
+
 def _optcell(v):
     v = float(v)
     if v != v:
@@ -282,12 +292,21 @@ class C11(Check):
 
     def make_case(self, rng):
         spec = self.gen_instance(rng)
+        # "f32" family: durations next to 2^24. Times are exact as Python ints and as float64, the float32 feature
+        # cells hold the correctly rounded value: the comparison rounds the model's / the specification's exact
+        # integers the same way (r32). DurationObserver is left out of these cases (its machine / job features are
+        # float32 SUMS, whose rounding depends on numpy's summation order - not modelled).
+        f32 = rng.random() < 0.06
+        if f32:
+            spec = [[[ms, ((1 << 24) + rng.randint(-3, 3)) if rng.random() < 0.6 else rng.randint(1, 3)]
+                     for ms, _ in job] for job in spec]
+            self.note("inst_f32_family")
         fs = []
         if rng.random() < 0.45:
             fs = [rng.randrange(4) for _ in range(rng.randint(1, 2))]
         sim = Sim()
         events = []
-        kinds = list(range(7))
+        kinds = [k for k in range(7) if not (f32 and k == 2)]
         rng.shuffle(kinds)
         r = rng.random()
         if r < 0.5:
@@ -295,7 +314,7 @@ class C11(Check):
         else:
             chosen = kinds[:rng.randint(1, 6)]
         if rng.random() < 0.15:
-            chosen = chosen + [rng.randrange(7)]              # the same class twice (not singletons)
+            chosen = chosen + [rng.choice(kinds)]             # the same class twice (not singletons)
         if rng.random() < 0.1:
             events.append([2, 8, [1, 1, 1], [], 0, 0])        # an unscheduled-operations observer first
             sim.construct(8, [1, 1, 1])
@@ -326,14 +345,17 @@ class C11(Check):
                     events.append([3, i])
                     sim.unsubscribe(i)
                 elif r < 0.9:
-                    events.append(self.gen_ctor(rng, sim, allow_bad=False))
+                    events.append(self.gen_ctor(rng, sim, kind=rng.choice(kinds), allow_bad=False))
                 else:
                     events.append(self.gen_composite(rng, sim))
                 for _ in range(rng.randint(0, 5)):
                     if tr.done():
                         break
                     events.append(gen.valid_request(rng, tr, explicit=True))
-        return {"spec": spec, "filters": fs, "events": events, "oracle_upto": upto}
+        case = {"spec": spec, "filters": fs, "events": events, "oracle_upto": upto}
+        if f32:
+            case["f32"] = 1
+        return case
 
     def gen_composite(self, rng, sim):
         fo = [i for i, (k, _) in enumerate(sim.objs) if k != 8]
@@ -395,6 +417,12 @@ class C11(Check):
     def judge(self, case, obs, outs):
         impl_outs, exn_names = obs
         model_out, spec_out, factory = outs
+        if case.get("f32"):
+            # per object: [kind, features(operations), features(machines), features(jobs), ...]; the float32 feature
+            # arrays are rounded, the EarliestStartTimeObserver's float64 table (position 4) is compared exactly
+            model_out = [[b[0], [b[1][0], [(list(o[:1]) + r32(list(o[1:4])) + list(o[4:]) if o and o[0] == 1 else r32(o)) for o in b[1][1]]]
+                          + list(b[1][2:])] + list(b[2:]) for b in model_out]
+            spec_out = [list(sp[:1]) + r32(list(sp[1:8])) + list(sp[8:]) for sp in spec_out]
         fails = []
         # factory table / class names
         for c, ent in enumerate(factory[:7]):
